@@ -236,6 +236,8 @@ def _subtree(args):
             if status == "violation":
                 vio["assignment"] = eng.assignment(fm)
                 eng.pending_violations.append(vio)
+                for l in ctx.labels:  # a class reached on a violating path is reached (vacuity guard)
+                    res["labels"][l] += 1
             for pv in eng.pending_violations:
                 c = run_concrete(harness, params, pv["assignment"])
                 pv["reproduced"] = c["status"] == "violation"
@@ -471,7 +473,7 @@ class Check:
         if r.inconclusive:
             self.messages.append("INCONCLUSIVE in %s: %s" % (r.name, r.inconclusive))
             self._raise(EXIT_INCONCLUSIVE)
-        if r.unreached:
+        if r.unreached and not [v for v in r.violations if v.get("reproduced")]:
             self.messages.append("UNREACHED classes in %s: %s (vacuity guard)" % (r.name, r.unreached))
             self._raise(EXIT_FAULT)
         seen = set()
